@@ -111,9 +111,6 @@ fn one_config<V: VringT<dmn::Mem> + Clone + Send + Sync + 'static>(cfg: &Cfg, nq
                         "observed" => format!("{evs:?}"), "worker_tids" => s.workers.iter().map(|w| w.tid as i64).collect::<Vec<i64>>()},
                         cfg.replay(case),
                     );
-                    if pass == 0 {
-                        break;
-                    }
                 }
             }
         }
